@@ -3,11 +3,18 @@
     v = 0), so an automatically split transfer is never refused for being too large; with auto_split
     disabled a step above max_volume raises InvalidOperationError; a reagent distribution never plans
     more multi-dispenses per aspiration than fit into max_volume.
-    Statements only; proofs live in Proofs/PartitionProofs.v (partition_volume) and
-    Proofs/PlanProofs.v (transfer level; the reagent_distribution part re-exports
-    Proofs/RecordsProofs.v). *)
+    Statements only; proofs live in Proofs/PartitionProofs.v (partition_volume),
+    Proofs/PlanProofs.v (the plan of a transfer; the reagent_distribution part re-exports
+    Proofs/RecordsProofs.v) and Proofs/SafetyExtraProofs.v (whole calls of [transfer] and [distribute]:
+    the last section of this file).
+
+    Definitions used in the last section: [t_vol swells dwells vols] / [t_triples swells dwells vols]
+    (Proofs/PlanProofs.v): the broadcast volume list / the (source, destination, volume) triples that
+    [transfer] builds from its arguments; [steps_le m acts] (Proofs/SafetyExtraProofs.v): every [Step] of
+    [acts] has a volume <= m; [bounded_rec_full m r]: an A / D record has 0 <= volume <= m, an R record
+    has 0 <= volume <= m and multi-dispense count * volume <= m. *)
 From Robo Require Import Prelude Str Wells Utils Labware Tips Records Partition Params Worklist
-  PartitionProofs LabwareProofs PlanProofs.
+  PartitionProofs LabwareProofs PlanProofs SafetyExtraProofs.
 
 Local Open Scope Q_scope.
 
@@ -181,3 +188,169 @@ Example C06_example_multi :
   map render (w_recs (fst (reagent_distribution (st_wl (ex_state 950 true)) a)))
   = ["R;src;;;1;8;dst;;;1;96;100;;1;9;0"]%string.
 Proof. vm_compute. repeat split. Qed.
+
+(* ------------------------------------------------------------------ whole calls: distribute *)
+
+(** [Worklist.distribute] (the call users make; [C06_multi_disp] above is about the record emitter it
+    ends in): an accepted call appends the comment records of its label and exactly one R record; the
+    volume of the record is the requested per-well volume, within [0, max_volume]; the multi-dispense
+    count of the record times the volume fits into max_volume; it is the requested count if that fits,
+    otherwise floor(max_volume / volume), the largest count that fits *)
+Theorem C06_distribute_multi : forall (s : state) (ks kd : nat) (dwells : arr string) (a : distargs) (s' : state),
+  distribute s ks kd dwells a = (s', None) ->
+  exists ls f,
+    st_wl s' = emit (st_wl s) (map RC ls ++ [RR f]) /\
+    match d_volume a with
+    | RVInt z => r_volume f = PyI z
+    | RVFloat x => exists q, x = XQ q /\ r_volume f = PyF q
+    | RVBad => False
+    end /\
+    0 <= pynum_q (r_volume f) /\ pynum_q (r_volume f) <= w_max (st_wl s) /\
+    inject_Z (r_multi_disp f) * pynum_q (r_volume f) <= w_max (st_wl s) /\
+    (inject_Z (d_multi_disp a) * pynum_q (r_volume f) <= w_max (st_wl s) ->
+       r_multi_disp f = d_multi_disp a) /\
+    (w_max (st_wl s) < inject_Z (d_multi_disp a) * pynum_q (r_volume f) ->
+       r_multi_disp f = Qfloor (w_max (st_wl s) / pynum_q (r_volume f)) /\
+       w_max (st_wl s) < inject_Z (r_multi_disp f + 1) * pynum_q (r_volume f)).
+Proof. exact distribute_multi. Qed.
+Print Assumptions C06_distribute_multi.
+
+(** a per-well volume above max_volume is refused with InvalidOperationError before anything happens
+    (there is no splitting in [distribute]) *)
+Theorem C06_distribute_too_large : forall (s : state) (ks kd : nat) (dwells : arr string) (a : distargs)
+    (Ls Ld : labware) (vr : nat) (v : Q),
+  nth_error (st_lw s) ks = Some Ls -> nth_error (st_lw s) kd = Some Ld ->
+  g_vrows (lw_geom Ls) = Some vr -> rvol_x (d_volume a) = Some (XQ v) -> w_max (st_wl s) < v ->
+  distribute s ks kd dwells a = (s, Some EInvalidOp).
+Proof. exact distribute_too_large. Qed.
+Print Assumptions C06_distribute_too_large.
+
+(* ------------------------------------------------------------------ whole calls: transfer *)
+
+(** the only source of InvalidOperationError in [transfer] (either device, any wash scheme, any tip,
+    any label): a step of its plan is above max_volume.  (All other failures of the model are
+    [EUnderflow] / [EOverflow] of the labware, [ECompat] of the base class, or [EReject] = "some other
+    exception": bad arguments, unknown wells, an invalid wash scheme, a label with a separator.) *)
+Theorem C06_transfer_invalid_origin : forall (s : state) (ks : nat) (swells : arr string) (kd : nat)
+    (dwells : arr string) (vols : arr Q) (label : option string) (ws : scheme) (pb : string) (kw : kwargs)
+    (s' : state),
+  transfer s ks swells kd dwells vols label ws pb kw = (s', Some EInvalidOp) ->
+  exists mode sw dw v,
+    In (Step sw dw v) (plan (w_autosplit (st_wl s)) (w_max (st_wl s)) mode (t_triples swells dwells vols)) /\
+    w_max (st_wl s) < v.
+Proof. exact transfer_invalid. Qed.
+Print Assumptions C06_transfer_invalid_origin.
+
+(** hence an automatically split transfer is never refused for being too large.  The hypothesis
+    0 < max_volume is necessary ([C06_example_max_zero]) *)
+Theorem C06_never_refused_transfer : forall (s : state) (ks : nat) (swells : arr string) (kd : nat)
+    (dwells : arr string) (vols : arr Q) (label : option string) (ws : scheme) (pb : string) (kw : kwargs)
+    (s' : state) (e : err),
+  w_autosplit (st_wl s) = true -> 0 < w_max (st_wl s) ->
+  transfer s ks swells kd dwells vols label ws pb kw = (s', Some e) -> e <> EInvalidOp.
+Proof. exact transfer_autosplit_never_invalid. Qed.
+Print Assumptions C06_never_refused_transfer.
+
+(** without auto_split, one pipetting pair above max_volume: the call fails and appends nothing.  (Which
+    exception: the source labware is charged first, so an underflow or an unknown well comes first;
+    otherwise InvalidOperationError, [C06_no_split_step] above.) *)
+Theorem C06_no_split_pair_nothing : forall (s : state) (ks kd : nat) (sw dw : string) (v : Q) (ws : scheme)
+    (kw : kwargs),
+  0 < v -> w_max (st_wl s) < v ->
+  exists s1 e, exec_step s ks kd sw dw v ws kw = (s1, Some e) /\ st_wl s1 = st_wl s.
+Proof. exact exec_step_oversized. Qed.
+Print Assumptions C06_no_split_pair_nothing.
+
+(** without auto_split, a whole transfer containing a volume v > max_volume (v > 0: a zero volume plans
+    no step) is never accepted.  Exactly one of the following happened:
+    - the arguments were refused and nothing changed (labware and worklist as before); or
+    - the label was accepted (its comment records are in [w]) and the plan has a FIRST step (sw, dw, v1)
+      above max_volume, preceded by the steps [pre], all within max_volume, and
+      * one of the pairs of [pre] failed (for a reason other than its size) and the call stopped there, or
+      * all pairs of [pre] were executed - THEIR A / D / tip records ARE in the worklist, the call is not
+        atomic - giving state [s1]; then the oversized pair failed without appending any record
+        ([st_wl s' = st_wl s1]); if its source well accepts the removal and has a valid address, the
+        exception is InvalidOperationError and the only change is that the source labware has been
+        charged ([s' = set_lw s1 ks L']). *)
+Theorem C06_no_split_refused_transfer : forall (s : state) (ks : nat) (swells : arr string) (kd : nat)
+    (dwells : arr string) (vols : arr Q) (label : option string) (ws : scheme) (pb : string) (kw : kwargs)
+    (s' : state) (e : option err) (v : Q),
+  w_autosplit (st_wl s) = false -> In v (t_vol swells dwells vols) -> 0 < v -> w_max (st_wl s) < v ->
+  transfer s ks swells kd dwells vols label ws pb kw = (s', e) ->
+  exists e0, e = Some e0 /\
+    ((st_lw s' = st_lw s /\ st_wl s' = st_wl s /\ (e0 = ECompat \/ e0 = EReject)) \/
+     exists mode w pre sw dw v1 post,
+       comment (st_wl s) label = (w, None) /\
+       plan false (w_max (st_wl s)) mode (t_triples swells dwells vols) = (pre ++ Step sw dw v1 :: post)%list /\
+       steps_le (w_max (st_wl s)) pre /\ 0 < v1 /\ w_max (st_wl s) < v1 /\
+       (exec (set_wl s w) ks kd pre ws kw = (s', Some e0) \/
+        exists s1, exec (set_wl s w) ks kd pre ws kw = (s1, None) /\
+          exec_step s1 ks kd sw dw v1 ws kw = (s', Some e0) /\ st_wl s' = st_wl s1 /\
+          forall L L' pos, nth_error (st_lw s1) ks = Some L ->
+            remove L (A1 [sw]) (A1 [XQ v1]) None = (L', None) ->
+            device_position (w_dev (st_wl s)) (lw_geom L) sw = Ok pos ->
+            text_ok true (PStr (lw_name L)) = Some (lw_name L) -> v1 <= max_tecan_volume ->
+            e0 = EInvalidOp /\ s' = set_lw s1 ks L')).
+Proof. exact transfer_nosplit_refused. Qed.
+Print Assumptions C06_no_split_refused_transfer.
+
+(** in short: never accepted, and whatever has been appended is within max_volume (no A / D record of the
+    oversized volume exists) *)
+Theorem C06_no_split_not_accepted : forall (s : state) (ks : nat) (swells : arr string) (kd : nat)
+    (dwells : arr string) (vols : arr Q) (label : option string) (ws : scheme) (pb : string) (kw : kwargs)
+    (s' : state) (e : option err) (v : Q),
+  w_autosplit (st_wl s) = false -> In v (t_vol swells dwells vols) -> 0 < v -> w_max (st_wl s) < v ->
+  transfer s ks swells kd dwells vols label ws pb kw = (s', e) ->
+  e <> None /\
+  exists new, st_wl s' = emit (st_wl s) new /\ Forall (bounded_rec_full (w_max (st_wl s))) new.
+Proof. exact transfer_nosplit_not_accepted. Qed.
+Print Assumptions C06_no_split_not_accepted.
+
+(** non-vacuity.  distribute 3.5 to three wells with 12 multi-dispenses requested and max_volume 15:
+    4 multi-dispenses (4 * 3.5 = 14 <= 15 < 17.5); a per-well volume of 16 is refused *)
+Definition ex_dargs (v : rvol) (md : Z) : distargs :=
+  {| d_source_column := 0; d_volume := v; d_diti_reuse := 1; d_multi_disp := md;
+     d_liquid_class := PStr "W"; d_label := Some "fill"%string; d_direction := "left_to_right"%string;
+     d_src_id := PStr ""; d_src_type := PStr ""; d_dst_id := PStr ""; d_dst_type := PStr "" |}.
+
+Example C06_example_distribute :
+  let r := distribute (ex_state 15 true) 0 1 (A1 ["A01"; "B01"; "A02"]%string) (ex_dargs (RVFloat (XQ (7 # 2))) 12) in
+  snd r = None /\
+  map render (w_recs (st_wl (fst r))) = ["C;fill"; "R;trough;;;1;8;plate;;;1;3;3.5;W;1;4;0"]%string /\
+  distribute (ex_state 15 true) 0 1 (A1 ["A01"; "B01"; "A02"]%string) (ex_dargs (RVInt 16) 12)
+  = (ex_state 15 true, Some EInvalidOp).
+Proof. vm_compute. repeat split. Qed.
+
+(** transfer without auto_split, volumes 10, 40, 5 and max_volume 15: the first pair is executed and its
+    records are in the worklist, the second pair charges the source trough (20000 - 10 - 40) and raises
+    InvalidOperationError without a record, the third pair is never reached *)
+Example C06_example_no_split_second :
+  let r := transfer (ex_state 15 false) 0 (A0 "A01"%string) 1 (A1 ["A01"; "B01"; "A02"]%string)
+                    (A1 [10; 40; 5]) None (SInt 1) "auto" kw_default in
+  In 40 (t_vol (A0 "A01"%string) (A1 ["A01"; "B01"; "A02"]%string) (A1 [10; 40; 5])) /\
+  plan false 15 ByDestination (t_triples (A0 "A01"%string) (A1 ["A01"; "B01"; "A02"]%string) (A1 [10; 40; 5]))
+  = [Step "A01" "A01" 10; Step "A01" "B01" 40; Step "A01" "A02" 5]%string /\
+  snd r = Some EInvalidOp /\
+  map render (w_recs (st_wl (fst r))) = ["A;trough;;;1;;10.00;;;;"; "D;plate;;;1;;10.00;;;;"; "W1;"]%string /\
+  map lw_vols (st_lw (fst r)) = [[19950; 5000]; [60; 50; 50; 50; 50; 50]].
+Proof. vm_compute. split; [right; left; reflexivity|repeat split]. Qed.
+
+(** the exception of an oversized pair is NOT always InvalidOperationError (so the unconditional reading
+    "raises InvalidOperationError" of the property is false of model and code): 45 > max_volume 15 from a
+    plate well holding 50 with min_volume 10 - the labware refuses the removal first *)
+Example C06_example_no_split_underflow_first :
+  let r := transfer (ex_state 15 false) 1 (A0 "A01"%string) 0 (A0 "A01"%string) (A0 45) None (SInt 1)
+                    "auto" kw_default in
+  snd r = Some EUnderflow /\ w_recs (st_wl (fst r)) = [] /\
+  map lw_vols (st_lw (fst r)) = [[20000; 5000]; [50; 50; 50; 50; 50; 50]].
+Proof. vm_compute. repeat split. Qed.
+
+(** the hypothesis 0 < max_volume of [C06_never_refused_transfer] cannot be dropped in the MODEL, whose
+    domain is max_volume > 0 (Model/Partition.v): with max_volume 0 the model's [partition_volume] returns
+    the unsplit volume (x / 0 = 0 in Q), which is then refused.  (In the library the division raises
+    ZeroDivisionError instead; max_volume = 0 is outside the domain of the correspondence check.) *)
+Example C06_example_max_zero :
+  partition_volume 10 0 = [10] /\
+  snd (transfer (ex_state 0 true) 0 (A0 "A01"%string) 1 (A1 ["A01"]%string) (A1 [10]) None (SInt 1)
+                "auto" kw_default) = Some EInvalidOp.
+Proof. vm_compute. split; reflexivity. Qed.
